@@ -110,7 +110,9 @@ Record rparams := {
   rp_maxdepth : option nat;
   rp_mws : R; rp_mwl : R; rp_mid : R; rp_tol : R;
   rp_ncls : nat;
-  rp_le : bool
+  rp_le : bool;
+  rp_wslack : R;          (* allowance for the rounding of the f32 weight sums, relative to the node's weight *)
+  rp_nfeat : nat
 }.
 
 Definition rfeat (s : rsample) (f : nat) : R := nth f (rs_x s) 0.
@@ -131,20 +133,24 @@ Definition rdecrease (imp : list R -> R) (k : nat) (smp SL SR : list rsample) : 
      + (1 - rweight SR / rweight smp) * imp (rfreqs k SL)).
 
 (** What a fitted (sub)tree [t], reached by the training samples [smp] at depth [depth], has to
-    satisfy. [imp = Some g]: the reported decrease is within [rp_tol] of the decrease of [g]. *)
+    satisfy. [imp = Some g]: the reported decrease is within [rp_tol] of the decrease of [g].
+    The weight statements are about EXACT weights, up to [rp_wslack P] times the weight of the node
+    (0 for unit / dyadic sample weights, whose f32 sums are exact). *)
 Fixpoint node_spec (P : rparams) (imp : option (list R -> R)) (smp : list rsample) (depth : nat)
          (t : tree R) : Prop :=
   match t with
   | Leaf d p =>
       d = depth /\ depth_ok (rp_maxdepth P) depth = true /\
       (exists s, In s smp /\ rs_y s = p) /\
-      (forall c, (c < rp_ncls P)%nat -> rwfreq smp c <= rwfreq smp p)
+      (forall c, (c < rp_ncls P)%nat -> rwfreq smp c <= rwfreq smp p + rp_wslack P * rweight smp)
   | Node d f thr dec l r =>
       let SL := rleft (rp_le P) f thr smp in
       let SR := rright (rp_le P) f thr smp in
       d = depth /\ depth_ok (rp_maxdepth P) depth = true /\
       rp_mws P <= INR (length smp) /\
-      (rp_mwl P <= rweight SL /\ rp_mwl P <= rweight SR /\ 0 < rweight SL /\ 0 < rweight SR) /\
+      (f < rp_nfeat P)%nat /\
+      (rp_mwl P <= rweight SL + rp_wslack P * rweight smp /\
+       rp_mwl P <= rweight SR + rp_wslack P * rweight smp /\ 0 < rweight SL /\ 0 < rweight SR) /\
       (forall s, In s smp ->
          goes_left R_ops (rp_le P) (rfeat s f) thr = goes_left R_ops true (rfeat s f) thr) /\
       match imp with
@@ -160,7 +166,8 @@ Definition sampleR (s : qsample) : rsample :=
   {| rs_x := map Q2R (qs_x s); rs_y := qs_y s; rs_w := Q2R (qs_w s) |}.
 Definition paramsR (P : qparams) : rparams :=
   {| rp_maxdepth := qp_maxdepth P; rp_mws := Q2R (qp_mws P); rp_mwl := Q2R (qp_mwl P);
-     rp_mid := Q2R (qp_mid P); rp_tol := Q2R (qp_tol P); rp_ncls := qp_ncls P; rp_le := qp_le P |}.
+     rp_mid := Q2R (qp_mid P); rp_tol := Q2R (qp_tol P); rp_ncls := qp_ncls P; rp_le := qp_le P;
+     rp_wslack := Q2R (qp_wslack P); rp_nfeat := qp_nfeat P |}.
 
 Lemma Q2R_0' : Q2R 0 = 0. Proof. apply RMicromega.Q2R_0. Qed.
 Lemma Q2R_1' : Q2R 1 = 1. Proof. apply RMicromega.Q2R_1. Qed.
@@ -366,23 +373,25 @@ Proof.
     + apply existsb_exists in H3 as [s [Hs Hy]]. exists (sampleR s). split.
       * apply in_map; exact Hs.
       * simpl. apply Nat.eqb_eq; exact Hy.
-    + intros c Hc. rewrite !rwfreq_Q. apply Qleb_R.
+    + intros c Hc. rewrite !rwfreq_Q, rweight_Q, <- Q2R_mult, <- Q2R_plus. apply Qleb_R.
       rewrite forallb_forall in H4. apply H4. apply in_seq. simpl in Hc. lia.
   - apply lor_0 in H as [H1 H]. apply lor_0 in H as [H2 H]. apply lor_0 in H as [H3 H].
+    apply lor_0 in H as [Hf H].
     apply lor_0 in H as [H4 H]. apply lor_0 in H as [H5 H]. apply lor_0 in H as [H6 H].
-    apply lor_0 in H as [H7 H]. apply lor_0 in H as [H8 H9].
+    apply lor_0 in H as [H7 H]. apply lor_0 in H as [H8 H9]. apply flag_0 in Hf; [|discriminate].
     apply flag_0 in H1; [|discriminate]. apply flag_0 in H2; [|discriminate].
     apply flag_0 in H3; [|discriminate]. apply flag_0 in H4; [|discriminate].
     apply flag_0 in H5; [|discriminate]. apply flag_0 in H6; [|discriminate].
     apply flag_0 in H7; [|discriminate].
-    cbn [tmap node_spec]. cbv zeta. cbn [paramsR rp_le rp_maxdepth rp_mws rp_mwl rp_mid rp_tol rp_ncls].
+    cbn [tmap node_spec]. cbv zeta. cbn [paramsR rp_le rp_maxdepth rp_mws rp_mwl rp_mid rp_tol rp_ncls rp_wslack rp_nfeat].
     rewrite rleft_Q, rright_Q.
     apply andb_true_iff in H4 as [H4 H4d]. apply andb_true_iff in H4 as [H4 H4c].
     apply andb_true_iff in H4 as [H4a H4b].
     split; [apply Nat.eqb_eq; exact H1|]. split; [exact H2|].
     split; [rewrite map_length, <- Q2R_inject_nat; apply Qleb_R; exact H3|].
+    split; [apply Nat.ltb_lt; exact Hf|].
     split.
-    { rewrite !rweight_Q. repeat split; try (apply Qleb_R; assumption).
+    { rewrite !rweight_Q, <- !Q2R_mult, <- !Q2R_plus. repeat split; try (apply Qleb_R; assumption).
       - rewrite <- Q2R_0'. apply Qltb_R; exact H4c.
       - rewrite <- Q2R_0'. apply Qltb_R; exact H4d. }
     split.
@@ -417,7 +426,7 @@ Lemma spec_well_depthed P imp : forall t smp depth,
 Proof.
   induction t as [d p|d f thr dec l IHl r IHr]; intros smp depth H; simpl in H; simpl.
   - destruct H as (H1 & H2 & _). auto.
-  - destruct H as (H1 & H2 & _ & _ & _ & _ & _ & Hl & Hr). repeat split; eauto.
+  - destruct H as (H1 & H2 & _ & _ & _ & _ & _ & _ & Hl & Hr). repeat split; eauto.
 Qed.
 
 Lemma well_depthed_sub {X} md : forall (s t : tree X), subtree s t -> forall depth,
@@ -449,7 +458,7 @@ Lemma spec_predict_label P imp : forall t smp depth,
 Proof.
   induction t as [d p|d f thr dec l IHl r IHr]; intros smp depth H x; simpl in H.
   - destruct H as (_ & _ & [s [H1 H2]] & _). exists s; auto.
-  - destruct H as (_ & _ & _ & _ & _ & _ & _ & Hl & Hr). cbn [predict].
+  - destruct H as (_ & _ & _ & _ & _ & _ & _ & _ & Hl & Hr). cbn [predict].
     destruct (goes_left R_ops (rp_le P) (nth f x (zero R_ops)) thr).
     + destruct (IHl _ _ Hl x) as [s [H1 H2]]. exists s; split; auto. eapply rleft_In; eauto.
     + destruct (IHr _ _ Hr x) as [s [H1 H2]]. exists s; split; auto. eapply rright_In; eauto.
@@ -496,11 +505,12 @@ Lemma spec_training P imp : forall t smp depth,
                 rs_y s' = predict R_ops (rp_le P) t (rs_x s)) /\
     forall c, (c < rp_ncls P)%nat ->
       rwfreq (leaf_samples (rp_le P) t smp (rs_x s)) c
-      <= rwfreq (leaf_samples (rp_le P) t smp (rs_x s)) (predict R_ops (rp_le P) t (rs_x s)).
+      <= rwfreq (leaf_samples (rp_le P) t smp (rs_x s)) (predict R_ops (rp_le P) t (rs_x s))
+         + rp_wslack P * rweight (leaf_samples (rp_le P) t smp (rs_x s)).
 Proof.
   induction t as [d p|d f thr dec l IHl r IHr]; intros smp depth H s Hs; cbn [node_spec] in H; cbv zeta in H.
   - destruct H as (_ & _ & He & Hm). cbn. auto.
-  - destruct H as (_ & _ & _ & _ & Hroute & _ & _ & Hl & Hr).
+  - destruct H as (_ & _ & _ & _ & _ & Hroute & _ & _ & Hl & Hr).
     unfold route_fit. cbn [route leaf_samples predict]. change (zero R_ops) with 0.
     fold (rfeat s f). rewrite <- (Hroute s Hs).
     destruct (goes_left R_ops (rp_le P) (rfeat s f) thr) eqn:E.
@@ -523,14 +533,27 @@ Lemma rwfreq_split le f thr smp c :
   rwfreq smp c = rwfreq (rleft le f thr smp) c + rwfreq (rright le f thr smp) c.
 Proof. unfold rwfreq, rweight, rleft, rright. apply rsum_filter_split. Qed.
 
-(** if both children predict [a] as a most frequent label of their samples, [a] is a most frequent
-    label of the parent's samples *)
-Lemma merge_modal le f thr smp a k :
-  (forall c, (c < k)%nat -> rwfreq (rleft le f thr smp) c <= rwfreq (rleft le f thr smp) a) ->
-  (forall c, (c < k)%nat -> rwfreq (rright le f thr smp) c <= rwfreq (rright le f thr smp) a) ->
-  forall c, (c < k)%nat -> rwfreq smp c <= rwfreq smp a.
+Lemma rsum_filter_compl (p : rsample -> bool) smp :
+  Rsum (map rs_w smp)
+  = Rsum (map rs_w (filter p smp)) + Rsum (map rs_w (filter (fun s => negb (p s)) smp)).
+Proof.
+  induction smp as [|a smp IH]; simpl; [lra|]. destruct (p a); simpl; lra.
+Qed.
+
+Lemma rweight_split le f thr smp : rweight smp = rweight (rleft le f thr smp) + rweight (rright le f thr smp).
+Proof. unfold rweight, rleft, rright. apply rsum_filter_compl. Qed.
+
+(** if both children predict [a] as a most frequent label of their samples (up to the share [sl] of
+    their weight), [a] is a most frequent label of the parent's samples (up to the same share) *)
+Lemma merge_modal le f thr smp a k sl :
+  (forall c, (c < k)%nat -> rwfreq (rleft le f thr smp) c
+                            <= rwfreq (rleft le f thr smp) a + sl * rweight (rleft le f thr smp)) ->
+  (forall c, (c < k)%nat -> rwfreq (rright le f thr smp) c
+                            <= rwfreq (rright le f thr smp) a + sl * rweight (rright le f thr smp)) ->
+  forall c, (c < k)%nat -> rwfreq smp c <= rwfreq smp a + sl * rweight smp.
 Proof.
   intros Hl Hr c Hc. rewrite (rwfreq_split le f thr smp c), (rwfreq_split le f thr smp a).
+  rewrite (rweight_split le f thr smp).
   specialize (Hl c Hc). specialize (Hr c Hc). lra.
 Qed.
 
@@ -538,7 +561,7 @@ Lemma prune_spec P imp : forall t smp depth,
   node_spec P imp smp depth t -> node_spec P imp smp depth (fst (prune t)).
 Proof.
   induction t as [d p|d f thr dec l IHl r IHr]; intros smp depth H; [exact H|].
-  simpl in H. destruct H as (H1 & H2 & H3 & H4 & H5 & H6 & H7 & Hl & Hr).
+  simpl in H. destruct H as (H1 & H2 & H3 & Hf & H4 & H5 & H6 & H7 & Hl & Hr).
   specialize (IHl _ _ Hl). specialize (IHr _ _ Hr).
   pose proof (prune_some_leaf l) as Sl. pose proof (prune_some_leaf r) as Sr.
   cbn [prune]. destruct (prune l) as [l' pl]; destruct (prune r) as [r' pr]; cbn [fst snd] in *.
@@ -584,7 +607,7 @@ Proof.
   - cbn [subtree_at] in E. injection E as E; subst t'. cbn [samples_at length]. rewrite Nat.add_0_r. exact H.
   - destruct t as [d q|d f thr dec l r]; [discriminate|].
     cbn [subtree_at] in E. cbn [samples_at length]. rewrite Nat.add_succ_r, <- Nat.add_succ_l.
-    cbn [node_spec] in H; cbv zeta in H. destruct H as (_ & _ & _ & _ & _ & _ & _ & Hl & Hr).
+    cbn [node_spec] in H; cbv zeta in H. destruct H as (_ & _ & _ & _ & _ & _ & _ & _ & Hl & Hr).
     destruct b; eapply IH; eauto.
 Qed.
 
@@ -594,8 +617,9 @@ Lemma spec_split_limits P imp path t smp d f thr dec l r :
   let S := samples_at (rp_le P) t smp path in
   let SL := rleft (rp_le P) f thr S in
   let SR := rright (rp_le P) f thr S in
-  d = length path /\
-  rp_mws P <= INR (length S) /\ rp_mwl P <= rweight SL /\ rp_mwl P <= rweight SR /\
+  d = length path /\ (f < rp_nfeat P)%nat /\
+  rp_mws P <= INR (length S) /\
+  rp_mwl P <= rweight SL + rp_wslack P * rweight S /\ rp_mwl P <= rweight SR + rp_wslack P * rweight S /\
   rp_mid P <= dec /\
   match imp with
   | Some g => Rabs (dec - rdecrease g (rp_ncls P) S SL SR) <= rp_tol P
@@ -604,13 +628,13 @@ Lemma spec_split_limits P imp path t smp d f thr dec l r :
 Proof.
   intros H E. pose proof (spec_at_path P imp path t smp 0 _ H E) as G.
   cbn [node_spec] in G; cbv zeta in G. simpl Nat.add in G.
-  destruct G as (G1 & _ & G3 & (G4 & G5 & _) & _ & G6 & G7 & _). cbv zeta. repeat split; auto.
+  destruct G as (G1 & _ & G3 & Gf & (G4 & G5 & _) & _ & G6 & G7 & _). cbv zeta. repeat split; auto.
 Qed.
 
 (* ---- whole tree ---- *)
 Definition tree_spec (P : rparams) (imp : option (list R -> R)) (itol : R) (smp : list rsample)
            (t : tree R) (imps : list R) : Prop :=
-  (forall s, In s smp -> (rs_y s < rp_ncls P)%nat /\ 0 <= rs_w s) /\
+  ((forall s, In s smp -> (rs_y s < rp_ncls P)%nat /\ 0 <= rs_w s) /\ 0 <= rp_wslack P) /\
   node_spec P imp smp 0 t /\
   (is_leaf t = false -> (forall x, In x imps -> 0 <= x) /\ Rabs (Rsum imps - 1) <= itol) /\
   pruned t = true.
@@ -630,8 +654,10 @@ Proof.
   unfold chk_tree. intros H. apply lor_0 in H as [H1 H]. apply lor_0 in H as [H2 H].
   apply lor_0 in H as [H3 H4].
   apply flag_0 in H1; [|discriminate]. apply flag_0 in H3; [|discriminate]. apply flag_0 in H4; [|discriminate].
+  apply andb_true_iff in H1 as [H1 H1s].
   split; [|split; [|split]].
-  - intros s Hs. apply in_map_iff in Hs as [s0 [E Hs]]; subst s. rewrite forallb_forall in H1.
+  - split; [|simpl; rewrite <- Q2R_0'; apply Qleb_R; exact H1s].
+    intros s Hs. apply in_map_iff in Hs as [s0 [E Hs]]; subst s. rewrite forallb_forall in H1.
     specialize (H1 _ Hs). apply andb_true_iff in H1 as [A B]. simpl. split.
     + apply Nat.ltb_lt; exact A.
     + rewrite <- Q2R_0'. apply Qleb_R; exact B.
@@ -653,19 +679,23 @@ Proof.
   lra.
 Qed.
 
-Lemma modal_all_labels k L p :
-  (forall s, In s L -> (rs_y s < k)%nat /\ 0 <= rs_w s) ->
-  (forall c, (c < k)%nat -> rwfreq L c <= rwfreq L p) ->
-  forall c, rwfreq L c <= rwfreq L p.
+Lemma modal_all_labels k L p sl :
+  (forall s, In s L -> (rs_y s < k)%nat /\ 0 <= rs_w s) -> 0 <= sl ->
+  (forall c, (c < k)%nat -> rwfreq L c <= rwfreq L p + sl * rweight L) ->
+  forall c, rwfreq L c <= rwfreq L p + sl * rweight L.
 Proof.
-  intros HL Hm c. destruct (Nat.lt_ge_cases c k) as [Hc|Hc]; [auto|].
+  intros HL Hsl Hm c. destruct (Nat.lt_ge_cases c k) as [Hc|Hc]; [auto|].
   assert (E : filter (fun s => Nat.eqb (rs_y s) c) L = []).
   { clear Hm. induction L as [|a L IH]; simpl; auto.
     destruct (Nat.eqb (rs_y a) c) eqn:Ea.
     - apply Nat.eqb_eq in Ea. destruct (HL a (or_introl eq_refl)). lia.
     - apply IH. intros s Hs. apply HL; right; exact Hs. }
   unfold rwfreq at 1. rewrite E. unfold rweight at 1; simpl.
-  apply rweight_nonneg. intros s Hs. apply filter_In in Hs as [Hs _]. apply HL; exact Hs.
+  assert (0 <= rwfreq L p).
+  { apply rweight_nonneg. intros s Hs. apply filter_In in Hs as [Hs _]. apply HL; exact Hs. }
+  assert (0 <= rweight L) by (apply rweight_nonneg; intros s Hs; apply HL; exact Hs).
+  assert (0 <= sl * rweight L) by (apply Rmult_le_pos; assumption).
+  lra.
 Qed.
 
 Lemma leaf_samples_incl le : forall t smp x s, In s (leaf_samples le t smp x) -> In s smp.
@@ -812,6 +842,51 @@ Proof.
   rewrite fold_add_R, Rplus_0_l in Hx. apply in_map_iff in Hx as [y [E Hy]]. subst x.
   rewrite Forall_forall in HA. specialize (HA y Hy).
   apply Rmult_le_pos; [exact HA|]. left. apply Rinv_0_lt_compat. exact Hs.
+Qed.
+
+(** well-formed tree (as far as the importances are concerned): every split is on a feature below
+    [nf] and reports a positive impurity decrease *)
+Fixpoint feats_below {X} (nf : nat) (t : tree X) : Prop :=
+  match t with
+  | Leaf _ _ => True
+  | Node _ f _ _ l r => (f < nf)%nat /\ feats_below nf l /\ feats_below nf r
+  end.
+Definition well_formed_tree (nf : nat) (t : tree R) : Prop := feats_below nf t /\ decs_pos t.
+
+Lemma wf_importances nf t :
+  well_formed_tree nf t -> is_leaf t = false ->
+  (forall x, In x (relative_impurity_decrease R_ops nf t) -> 0 <= x) /\
+  Rsum (relative_impurity_decrease R_ops nf t) = 1.
+Proof.
+  intros [Hf Hp] Hl. destruct t as [|d f thr dec l r]; [discriminate|].
+  apply importance_ok; [|exact Hp]. simpl in Hf. tauto.
+Qed.
+
+(** a tree that satisfies the node specification with a positive min_impurity_decrease is well formed *)
+Lemma spec_well_formed P imp : 0 < rp_mid P -> forall t smp depth,
+  node_spec P imp smp depth t -> well_formed_tree (rp_nfeat P) t.
+Proof.
+  intros Hm. induction t as [d p|d f thr dec l IHl r IHr]; intros smp depth H.
+  - split; exact I.
+  - cbn [node_spec] in H; cbv zeta in H. destruct H as (_ & _ & _ & Hf & _ & _ & _ & Hd & Hl & Hr).
+    destruct (IHl _ _ Hl) as [A1 B1]. destruct (IHr _ _ Hr) as [A2 B2].
+    split; simpl; repeat split; auto. lra.
+Qed.
+
+Lemma length_upd {A} (l : list A) k g : length (upd l k g) = length l.
+Proof. revert k; induction l as [|a l IH]; intros [|k]; simpl; auto. Qed.
+
+Lemma importances_length {X} (ox : NumOps X) nf (t : tree X) :
+  length (relative_impurity_decrease ox nf t) = nf.
+Proof.
+  unfold relative_impurity_decrease, mean_impurity_decrease. rewrite !map_length.
+  generalize (iter_nodes t). intros nodes.
+  assert (G : forall a, length (fold_left (fun a nd => match nd with
+                 | Leaf _ _ => a
+                 | Node _ f _ dec _ _ => upd a f (fun sc => (add ox (fst sc) dec, N.succ (snd sc)))
+                 end) nodes a) = length a).
+  { induction nodes as [|nd nodes IH]; intros a; simpl; auto. rewrite IH. destruct nd; auto. apply length_upd. }
+  rewrite G. apply repeat_length.
 Qed.
 
 (* ------------------------------------------------------------------------------------------ *)
@@ -1154,14 +1229,42 @@ Lemma tree_spec_training P imp itol smp t imps s :
   In s L /\
   (forall s', In s' L <-> In s' smp /\ route R_ops (rp_le P) t (rs_x s') = route R_ops (rp_le P) t (rs_x s)) /\
   (exists s', In s' L /\ rs_y s' = p) /\
-  (forall c, rwfreq L c <= rwfreq L p).
+  (forall c, rwfreq L c <= rwfreq L p + rp_wslack P * rweight L).
 Proof.
-  intros (Hin & Hn & _ & _) Hs L p.
+  intros ((Hin & Hsl) & Hn & _ & _) Hs L p.
   destruct (spec_training P imp t smp 0%nat Hn s Hs) as (A & B & C).
   split; [exact A|]. split; [apply leaf_samples_char; auto|]. split; [intros s'; apply leaf_samples_char|].
   split; [exact B|].
-  apply (modal_all_labels (rp_ncls P)); [|exact C].
+  apply (modal_all_labels (rp_ncls P)); [|exact Hsl|exact C].
   intros s' Hs'. apply Hin. eapply leaf_samples_incl; eauto.
+Qed.
+
+(** what the checker accepts predicts only labels of training samples *)
+Lemma chk_tree_predict_label P gc itol smp t imps :
+  chk_tree P gc itol smp t imps = 0%N ->
+  forall x : list R, In (predict R_ops (qp_le P) (tmap Q2R t) x) (map qs_y smp).
+Proof.
+  intros H x. apply chk_tree_sound in H. destruct H as (_ & H & _).
+  destruct (spec_predict_label _ _ _ _ _ H x) as [s [Hs Hy]]. cbn [paramsR rp_le] in Hy. rewrite <- Hy.
+  apply in_map_iff in Hs as [s0 [E Hs0]]. subst s. simpl. apply in_map. exact Hs0.
+Qed.
+
+(** with an allowance of zero the weight statements are the exact ones *)
+Lemma tree_spec_exact_weights P imp itol smp t imps :
+  tree_spec P imp itol smp t imps -> rp_wslack P = 0 ->
+  (forall path d f thr dec l r, subtree_at t path = Some (Node d f thr dec l r) ->
+     let S := samples_at (rp_le P) t smp path in
+     rp_mwl P <= rweight (rleft (rp_le P) f thr S) /\ rp_mwl P <= rweight (rright (rp_le P) f thr S)) /\
+  (forall s, In s smp ->
+     let L := leaf_samples (rp_le P) t smp (rs_x s) in
+     forall c, rwfreq L c <= rwfreq L (predict R_ops (rp_le P) t (rs_x s))).
+Proof.
+  intros HT H0. split.
+  - intros path d f thr dec l r E. destruct HT as (_ & Hn & _).
+    destruct (spec_split_limits P imp path t smp d f thr dec l r Hn E) as (_ & _ & _ & A & B & _).
+    rewrite H0 in A, B. cbv zeta. lra.
+  - intros s Hs L c. destruct (tree_spec_training P imp itol smp t imps s HT Hs) as (_ & _ & _ & _ & C).
+    specialize (C c). rewrite H0 in C. fold L in C. lra.
 Qed.
 
 Lemma fit_depth_le {W X} (ow : NumOps W) (ox : NumOps X) cast imp H xs ys ws ncls nfeat t m s :
@@ -1178,7 +1281,7 @@ Local Close Scope R_scope.
 
 Definition ex_params : qparams :=
   {| qp_maxdepth := Some 1%nat; qp_mws := 2%Q; qp_mwl := 1%Q; qp_mid := (1 # 100000)%Q;
-     qp_tol := (1 # 262144)%Q; qp_ncls := 2%nat; qp_le := false |}.
+     qp_tol := (1 # 262144)%Q; qp_ncls := 2%nat; qp_le := false; qp_wslack := 0%Q; qp_nfeat := 1%nat |}.
 Definition ex_samples : list qsample :=
   [ {| qs_x := [0%Q]; qs_y := 0%nat; qs_w := 1%Q |}; {| qs_x := [1%Q]; qs_y := 0%nat; qs_w := 1%Q |};
     {| qs_x := [2%Q]; qs_y := 1%nat; qs_w := (1 # 2)%Q |}; {| qs_x := [3%Q]; qs_y := 1%nat; qs_w := 2%Q |} ].
@@ -1217,6 +1320,29 @@ Proof. vm_compute. discriminate. Qed.
 
 Example ex_decs_pos : decs_pos (tmap Q2R ex_tree).
 Proof. simpl. repeat split; auto. unfold Q2R; simpl. lra. Qed.
+
+Example ex_well_formed : well_formed_tree 1 (tmap Q2R ex_tree) /\ is_leaf (tmap Q2R ex_tree) = false.
+Proof. split; [split; [simpl; repeat split; auto|exact ex_decs_pos]|reflexivity]. Qed.
+
+(** non-dyadic sample weights (1/3-like values): the left side holds 3/10 + 1 = 13/10 of exact weight;
+    with min_weight_leaf = 13/10 + 1/10^7 (the f32 running sum of the code may round above the exact
+    sum) the exact comparison fails, the allowance 4 * 2^-23 of the node's weight accepts it *)
+Definition ex_params_slack (sl : Q) : qparams :=
+  {| qp_maxdepth := None; qp_mws := 2%Q; qp_mwl := (13000001 # 10000000)%Q; qp_mid := (1 # 100000)%Q;
+     qp_tol := (1 # 262144)%Q; qp_ncls := 2%nat; qp_le := true; qp_wslack := sl; qp_nfeat := 1%nat |}.
+Definition ex_samples3 : list qsample :=
+  [ {| qs_x := [0%Q]; qs_y := 0%nat; qs_w := (3 # 10)%Q |}; {| qs_x := [1%Q]; qs_y := 0%nat; qs_w := 1%Q |};
+    {| qs_x := [2%Q]; qs_y := 1%nat; qs_w := 1%Q |}; {| qs_x := [3%Q]; qs_y := 1%nat; qs_w := 1%Q |} ].
+Example ex_slack_needed :
+  chk_tree (ex_params_slack 0) CNone (1 # 1000000)%Q ex_samples3 (Node 0 0 (3 # 2)%Q (1 # 2)%Q (Leaf 1 0) (Leaf 1 1)) [1%Q] = 8%N
+  /\ chk_tree (ex_params_slack (4 # 8388608)) CNone (1 # 1000000)%Q ex_samples3
+              (Node 0 0 (3 # 2)%Q (1 # 2)%Q (Leaf 1 0) (Leaf 1 1)) [1%Q] = 0%N.
+Proof. split; vm_compute; reflexivity. Qed.
+(** a split on a feature the data does not have is rejected *)
+Example ex_rejected_feature :
+  chk_tree ex_params CGini (1 # 1000000)%Q ex_samples (Node 0 1 (3 # 2)%Q (40 # 81)%Q (Leaf 1 0) (Leaf 1 1)) [1%Q]
+  <> 0%N.
+Proof. vm_compute. discriminate. Qed.
 
 Example ex_subtree_at : subtree_at (tmap Q2R ex_tree) [] = Some (tmap Q2R ex_tree).
 Proof. reflexivity. Qed.
